@@ -132,6 +132,18 @@ CORPUS = [
                                 {"kind": "sliding_window", "ups": [1], "n": 2, "partial": True}, {"kind": "sink", "mode": "async", "ups": [2]}],
      "ops": [{"op": "emit", "node": 0, "val": 1, "md": [{"tag": 1, "ref": 1}]}, {"op": "emit", "node": 0, "val": 2, "md": [{"tag": 2, "ref": 2}]},
              {"op": "emit", "node": 0, "val": 3, "md": [{"tag": 3, "ref": 3}]}, {"op": "sinkfail", "tok": 0}, {"op": "sinkdone", "tok": 1}]},
+    # an awaitable consumer failing below unique(hashable=False) / unique with maxsize: every storage form of unique hands the consumers' awaitables back
+    {"mode": "async", "flavour": "future", "nodes": [{"kind": "source", "ups": []}, {"kind": "unique", "ups": [0], "maxsize": None, "key": ["id"], "hashable": False},
+                                                      {"kind": "sink", "mode": "async", "ups": [1]}],
+     "ops": [{"op": "emit", "node": 0, "val": 1, "md": [{"tag": 1, "ref": 1}]}, {"op": "sinkfail", "tok": 0},
+             {"op": "emit", "node": 0, "val": 2, "md": [{"tag": 2, "ref": 2}]}, {"op": "sinkdone", "tok": 1}]},
+    {"mode": "async", "flavour": "coro", "nodes": [{"kind": "source", "ups": []}, {"kind": "unique", "ups": [0], "maxsize": 2, "key": ["modk", 3], "hashable": False},
+                                                    {"kind": "sink", "mode": "async", "ups": [1]}],
+     "ops": [{"op": "emit", "node": 0, "val": 1, "md": [{"tag": 1, "ref": 1}]}, {"op": "sinkdone", "tok": 0},
+             {"op": "emit", "node": 0, "val": 2, "md": [{"tag": 2, "ref": 2}]}, {"op": "sinkfail", "tok": 1}]},
+    {"mode": "async", "flavour": "tornado", "nodes": [{"kind": "source", "ups": []}, {"kind": "unique", "ups": [0], "maxsize": 1, "key": ["id"], "hashable": True},
+                                                       {"kind": "sink", "mode": "async", "ups": [1]}],
+     "ops": [{"op": "emit", "node": 0, "val": 1, "md": [{"tag": 1, "ref": 1}]}, {"op": "sinkfail", "tok": 0}]},
     # the user function below a one-to-many node raises StopIteration / KeyError / a falsy exception: no frame on the way up may take it
     # for its own control flow (flatten iterates, pluck indexes, unique looks keys up)
 ]
